@@ -141,6 +141,21 @@ type ZStr string
 
 func (z ZStr) IsZero() bool { return z == "zero" }
 
+// IsZeroers of slice / map / array kind: ZInts (value receiver) is zero when it is empty
+// or starts with 0, ZMapP (pointer receiver) when it has exactly one entry, ZArr (value
+// receiver) when both elements are 0.
+type ZInts []int
+
+func (z ZInts) IsZero() bool { return len(z) == 0 || z[0] == 0 }
+
+type ZMapP map[string]int
+
+func (z *ZMapP) IsZero() bool { return z == nil || len(*z) == 1 }
+
+type ZArr [2]int
+
+func (z ZArr) IsZero() bool { return z[0] == 0 && z[1] == 0 }
+
 // TimeLike: like time.Time — unexported fields only, IsZero on the value receiver.
 type TimeLike struct {
 	wall uint64
@@ -272,6 +287,44 @@ type NI struct {
 	Next interface{}
 }
 
+// more cyclic type terms: tree (slice and map of itself), mutually recursive types,
+// a type inlining itself through a pointer / through an interface, omitempty on the
+// recursive field, a cyclic type that can not be folded (chan field AFTER the
+// recursive one), named slice / map of itself
+type Tree struct {
+	V    int
+	Kids []Tree
+	M    map[string]*Tree
+}
+type MA struct {
+	V int
+	B *MB
+}
+type MB struct {
+	S  string
+	A  *MA
+	As []MA
+}
+type NIn struct {
+	V    int
+	Next *NIn `struct:",inline"`
+}
+type NII struct {
+	V    int
+	Next interface{} `struct:",inline"`
+}
+type NO struct {
+	V    int
+	Next *NO `struct:",omitempty"`
+}
+type NBad struct {
+	V    int
+	Next *NBad
+	C    chan int
+}
+type L []L
+type MM map[string]MM
+
 type MenagerieEntry struct {
 	Name string
 	Type reflect.Type
@@ -282,6 +335,7 @@ var Menagerie = []MenagerieEntry{
 	{"FOpen", reflect.TypeOf(FOpen{})},
 	{"ZV", reflect.TypeOf(ZV{})}, {"ZP", reflect.TypeOf(ZP{})}, {"ZInt", reflect.TypeOf(ZInt(0))},
 	{"ZStr", reflect.TypeOf(ZStr(""))}, {"TimeLike", reflect.TypeOf(TimeLike{})},
+	{"ZInts", reflect.TypeOf(ZInts(nil))}, {"ZMapP", reflect.TypeOf(ZMapP(nil))}, {"ZArr", reflect.TypeOf(ZArr{})},
 	{"NBool", reflect.TypeOf(NBool(false))}, {"NStr", reflect.TypeOf(NStr(""))}, {"NInt", reflect.TypeOf(NInt(0))},
 	{"NU8", reflect.TypeOf(NU8(0))}, {"NF32", reflect.TypeOf(NF32(0))},
 	{"NInts", reflect.TypeOf(NInts(nil))}, {"NBytes", reflect.TypeOf(NBytes(nil))}, {"NStrs", reflect.TypeOf(NStrs(nil))},
@@ -295,6 +349,9 @@ var Menagerie = []MenagerieEntry{
 	{"UF", reflect.TypeOf(UF{})}, {"UO", reflect.TypeOf(UO{})}, {"UD", reflect.TypeOf(UD(0))},
 	{"Ifc", reflect.TypeOf(Ifc{})}, {"Mixed", reflect.TypeOf(Mixed{})},
 	{"N", reflect.TypeOf(N{})}, {"NI", reflect.TypeOf(NI{})},
+	{"Tree", reflect.TypeOf(Tree{})}, {"MA", reflect.TypeOf(MA{})}, {"MB", reflect.TypeOf(MB{})},
+	{"NIn", reflect.TypeOf(NIn{})}, {"NII", reflect.TypeOf(NII{})}, {"NO", reflect.TypeOf(NO{})},
+	{"NBad", reflect.TypeOf(NBad{})}, {"L", reflect.TypeOf(L(nil))}, {"MM", reflect.TypeOf(MM(nil))},
 }
 
 var menByName = map[string]reflect.Type{}
